@@ -77,6 +77,14 @@ def run(ctx):
               "append_record's level loop can be left early")
 
     step_rules(ctx, m, (("Env", m.env_fn, "order_book"), ("MarketEnv", m.menv_fn, "market")))
+    # "per-step traded volume = volume of the trades stamped within the step": the recorded value is the book's
+    # cumulative counter (reset at the start of the step), so every fill must reach that counter (rule shared with C03)
+    from . import c03
+    tw = m.trade_writers()
+    if len(tw) == 1:
+        c03.fill_flow(ctx, m, tw[0][0], rule="traded-volume-counter")
+    else:
+        ctx.lost("traded-volume-counter", "exactly one trade writer expected, found %d" % len(tw))
 
 
 def step_rules(ctx, m, owners):
